@@ -25,6 +25,7 @@ structure MemTx where
   tx : Bytes
   gas : Int
   height : Int
+  senders : List Nat := []   -- memTx.senders: ids of the peers this tx was received from
 deriving Repr, DecidableEq
 
 structure State where
@@ -84,6 +85,23 @@ def checkTx (s : State) (tx : Bytes) (v : Verdict) : State × CheckRes :=
     if !r.2 then ({ s with cache := r.1 }, .inCache)
     else (resCbFirstTime { s with cache := r.1 } tx v, .ok)
 
+/-- `senders.LoadOrStore(peerID, true)` on the entry of `tx` -/
+def recordSender (s : State) (tx : Bytes) (peer : Nat) : State :=
+  { s with txs := s.txs.map (fun e =>
+      if e.tx = tx then (if peer ∈ e.senders then e else { e with senders := e.senders ++ [peer] }) else e) }
+
+/-- `CheckTx(tx, cb, TxInfo{SenderID: peer})`: `checkTx` plus the sender bookkeeping. The code
+records the peer in three places — a new entry starts with `senders = {peer}` (`resCbFirstTime`),
+an accepted resubmission that finds the tx in `txsMap` stores it there, and a cache hit
+(`ErrTxInCache`) stores it when the tx is still in `txsMap`; all three are "the call got past the
+early guards, was not rejected by the application, and the tx is in the pool afterwards". -/
+def checkTxFrom (s : State) (tx : Bytes) (v : Verdict) (peer : Nat) : State × CheckRes :=
+  let r := checkTx s tx v
+  match r.2 with
+  | .inCache => (recordSender r.1 tx peer, r.2)
+  | .ok => if accepted s.post v then (recordSender r.1 tx peer, r.2) else r
+  | _ => r
+
 /-- `resCbRecheck` for the entry under the cursor -/
 def resCbRecheck (s : State) (tx : Bytes) (v : Verdict) : State :=
   if accepted s.post v then s else removeTx s tx (!s.cfg.keepInvalid)
@@ -140,12 +158,12 @@ def reapMaxTxs (s : State) (max : Int) : List Bytes :=
 
 /-- operations of a history (reaps do not change the state) -/
 inductive Op
-  | check (tx : Bytes) (v : Verdict)
+  | check (tx : Bytes) (v : Verdict) (peer : Nat := 0)
   | update (h : Int) (block : List (Bytes × Nat)) (pre post : Option Int) (rv : Bytes → Verdict)
   | flush
 
 def step (s : State) : Op → State
-  | .check tx v => (checkTx s tx v).1
+  | .check tx v peer => (checkTxFrom s tx v peer).1
   | .update h b pre post rv => update s h b pre post rv
   | .flush => flush s
 
